@@ -47,7 +47,7 @@ type Contract struct {
 	exits        []*specExpr // must hold on every path that ends in os.Exit
 	decreases    *specExpr
 	loopInv      map[int][]*specExpr
-	loopDec      map[int]string
+	loopDec      map[int]*specExpr
 	loopIter     map[int][]*specExpr // checked at every back edge: effects of one complete iteration
 	hasModifies  bool
 	modifiesFams []string
@@ -138,13 +138,13 @@ func (cs *Contracts) parseFile(e *Engine, file, src string, pkg *types.Package) 
 			if existing := cs.byKey[key]; existing != nil {
 				cur = existing // several blocks for one function are merged
 			} else {
-				cur = &Contract{key: key, pkg: pkg, loopInv: map[int][]*specExpr{}, loopDec: map[int]string{}, file: file}
+				cur = &Contract{key: key, pkg: pkg, loopInv: map[int][]*specExpr{}, loopDec: map[int]*specExpr{}, file: file}
 				cs.byKey[key] = cur
 			}
 		case "methods":
 			key := qualifyKey(rest+".", pkgQual(pkg))
 			key = strings.TrimSuffix(key, ".")
-			cur = &Contract{key: key, pkg: pkg, loopInv: map[int][]*specExpr{}, loopDec: map[int]string{}, file: file}
+			cur = &Contract{key: key, pkg: pkg, loopInv: map[int][]*specExpr{}, loopDec: map[int]*specExpr{}, file: file}
 			cs.methods[key] = cur
 		case "requires":
 			cur.requires = append(cur.requires, mk(rest))
@@ -187,7 +187,7 @@ func (cs *Contracts) parseFile(e *Engine, file, src string, pkg *types.Package) 
 			case "invariant":
 				cur.loopInv[n] = append(cur.loopInv[n], mk(r3))
 			case "decreases":
-				cur.loopDec[n] = r3
+				cur.loopDec[n] = mk(r3)
 			case "iteration-ensures":
 				if cur.loopIter == nil {
 					cur.loopIter = map[int][]*specExpr{}
@@ -405,7 +405,7 @@ func (cs *Contracts) lookup(e *Engine, fn *ssa.Function) *Contract {
 	// uniform contracts attached to every method of a receiver type
 	if i := strings.Index(key, ")."); i > 0 && strings.HasPrefix(key, "(") && fn.Synthetic == "" {
 		if tmpl := cs.methods[key[:i+1]]; tmpl != nil {
-			m := &Contract{key: key, pkg: tmpl.pkg, loopInv: map[int][]*specExpr{}, loopDec: map[int]string{}, file: tmpl.file}
+			m := &Contract{key: key, pkg: tmpl.pkg, loopInv: map[int][]*specExpr{}, loopDec: map[int]*specExpr{}, file: tmpl.file}
 			if c != nil {
 				*m = *c
 			}
@@ -426,7 +426,7 @@ func (cs *Contracts) lookup(e *Engine, fn *ssa.Function) *Contract {
 	}
 	// generator phase: every non-trivial function is called through its (possibly empty) contract
 	if c == nil && fn.Blocks != nil && fn.Synthetic == "" && e.cfg.PhaseB(fn) && !e.smallLeaf(fn) {
-		c = &Contract{key: key, loopInv: map[int][]*specExpr{}, loopDec: map[int]string{}, synthesized: true, framed: true}
+		c = &Contract{key: key, loopInv: map[int][]*specExpr{}, loopDec: map[int]*specExpr{}, synthesized: true, framed: true}
 		if fn.Pkg != nil {
 			c.pkg = fn.Pkg.Pkg
 		}
@@ -477,10 +477,10 @@ func (cs *Contracts) loopInvariants(e *Engine, fn *ssa.Function, ord int) []*spe
 	return c.loopInv[ord]
 }
 
-func (cs *Contracts) loopDecreases(e *Engine, fn *ssa.Function, ord int) string {
+func (cs *Contracts) loopDecreases(e *Engine, fn *ssa.Function, ord int) *specExpr {
 	c := cs.lookup(e, fn)
 	if c == nil {
-		return ""
+		return nil
 	}
 	return c.loopDec[ord]
 }
